@@ -13,7 +13,7 @@ TRUSTED_BASE = [
     "Coq 8.16.1 kernel (coqc; coqchk in the thorough tier); vm_compute for Examples/witnesses; no native_compute",
     "axioms: none declared; Print Assumptions output of the property theorems is recorded in print_assumptions",
     "translator tools/gen_from_src.py (priority table, enums) re-run on every check",
-    "extraction: Coq extraction plugin with ExtrOcamlBasic only (bool, option, unit, list, prod, sumbool, sumor native); no Extract Constant; OCaml 4.13.1 + zarith for boundary conversions in ocaml/driver.ml",
+    "extraction: Coq extraction plugin with ExtrOcamlBasic only (bool, option, unit, list, prod, sumbool, sumor native); no Extract Constant; OCaml 4.13.1 + zarith for boundary conversions in ocaml/driver.ml; cross-checked on every run: a numeric summary of run p computed by vm_compute inside Coq equals the extracted code's on sampled programs (extraction_crosscheck)",
     "correspondence: Rust harness (AST builder + canonical printer), OCaml driver (reader/printer), tools/compare.py; generator reach is measured, not trusted",
     "modelled, not verified: all Rust code of /repo; RefCell borrows, Rc identity, HashMap/HashSet internals, u64 wrap of the register counter, native stack, Debug/Display text inside non-identifier error values are not represented in the model",
 ]
